@@ -9,7 +9,7 @@ from .. import gen, ref, snap
 from ..core import FAILED
 
 DECIDING = ["O1:classical=bruteforce", "O2:cl<=NPA", "O2:qlb<=NPA", "O2:NPA-monotone", "O2:NPA<=NS", "O2:NS<=1", "O2:explicit-strategy<=NPA",
-            "O3:product-game", "O4:bcs-game", "O5:order-independent", "O5:game-unchanged", "O1:classical-pooled"]
+            "O3:product-game", "O4:bcs-game", "O5:order-independent", "O5:game-unchanged", "O1:classical-pooled", "O3:odometer"]
 RULE = ("games with answer/question alphabet sizes drawn independently from 1..3 (thorough 1..4), 0/1 and fractional predicates, uniform/biased/"
         "sparse question distributions; structured games with a classical/quantum gap (XOR- and mod-3-type predicates, CHSH, odd cycle, FFL) for the "
         "orderings; a signature is (monitor, A, B, X, Y, predicate kind, support pattern) and is non-trivial when A != B or X != Y or the game has a "
@@ -41,6 +41,8 @@ def cases(tier):
         out.append(("sdp", r))
     for r in range(6 if tier == "quick" else 48):
         out.append(("hist", r))
+    for r in range(20 if tier == "quick" else 400):
+        out.append(("odometer", r))
     return out
 
 
@@ -484,3 +486,24 @@ def _run_hist(ctx, spec, rng):
             now = (snap.digest(game.prob_mat), snap.digest(game.pred_mat))
             ctx.check("O5:game-unchanged", now == before, sig=("after", m), mech=f"value-method-mutates-game[{m}]", detail={"game": name, "order": order})
         ctx.sample("O5:order-independent", {"game": name, "history": log, "fresh": fresh})
+
+
+def _run_odometer(ctx, spec, rng):
+    """update_odometer drives the index bookkeeping of repeated games: it must enumerate mixed-radix tuples in lexicographic order and wrap."""
+    from toqito.helper import update_odometer
+
+    n = int(rng.integers(1, 5))
+    lim = [int(v) for v in rng.integers(1, 5, size=n)]
+    want = list(itertools.product(*[range(u) for u in lim]))
+    cur = np.zeros(n, dtype=int) if spec[1] % 2 else [0] * n
+    seen = [tuple(int(v) for v in cur)]
+    ok = True
+    for _ in range(len(want)):
+        nxt = ctx.call(update_odometer, cur, np.array(lim) if spec[1] % 3 else list(lim))
+        if nxt is FAILED:
+            return
+        cur = nxt
+        seen.append(tuple(int(v) for v in np.asarray(cur).reshape(-1)))
+    ok = seen[:-1] == want and seen[-1] == want[0]
+    ctx.check("O3:odometer", ok, sig=(n, tuple(lim)), nt=len(set(lim)) > 1, mech="update_odometer:not-lexicographic-enumeration", detail={"limits": lim, "first": seen[:6]})
+    ctx.sample("O3:odometer", {"limits": lim, "sequence_head": seen[:5]})
